@@ -82,11 +82,13 @@ def std_handles_part(chk, vh):
     import pty
     wd = vlib.workdir("c09-std")
     base = {k: v for k, v in os.environ.items() if k not in ("NO_COLOR", "CLICOLOR", "CLICOLOR_FORCE", "CI", "COLORTERM", "TERM")}
-    envs = [{"TERM": "xterm-256color"}, {"TERM": "dumb"}, {"TERM": "dumb", "CI": "true"}, {"CLICOLOR": "1"}, {"TERM": "xterm-256color", "NO_COLOR": "1"}]
+    NU = "\udcff\udcfe"     # a value that is not valid UTF-8 (bytes FF FE): present and non-empty like any other
+    envs = [{"TERM": "xterm-256color"}, {"TERM": "dumb"}, {"TERM": "dumb", "CI": "true"}, {"CLICOLOR": "1"}, {"TERM": "xterm-256color", "NO_COLOR": "1"},
+            {"NO_COLOR": NU, "CLICOLOR_FORCE": "1"}, {"CLICOLOR_FORCE": NU}, {"CLICOLOR": NU, "TERM": "dumb"}, {"TERM": NU}, {"CI": NU, "TERM": "dumb"}]
     evs = []
     for ei, extra in enumerate(envs):
         env = dict(base); env.update(extra)
-        full = {v: extra.get(v, "unset") for v in ("NO_COLOR", "CLICOLOR_FORCE", "CLICOLOR", "TERM", "CI")}
+        full = {v: ("<not UTF-8>" if extra.get(v) == NU else extra.get(v, "unset")) for v in ("NO_COLOR", "CLICOLOR_FORCE", "CLICOLOR", "TERM", "CI")}
         for out_term in (False, True):
             for err_term in (False, True):
                 fds = []
